@@ -101,7 +101,7 @@ Section Termination.
             destruct (negb (can_be_cyclic E (unwrap c)) || is_generic E (unwrap c) && negb (revisit c (unwrap c) path)).
             - cbn [wsum fold_right snd]. etransitivity; [exact I1|]. apply Nat.add_le_mono_l. apply Nat.le_add_l.
             - exact I1. }
-          destruct (is_generic E (unwrap c) || should_unwrap c).
+          destruct (is_generic E (unwrap c) || should_unwrap c || is_ref c).
           -- destruct (expand E rest st path) as [[ps st1]|] eqn:Hrest; [|discriminate]. inversion H; subst.
              apply (Hgen (mkdefer c (unwrap c) var) ps); auto.
           -- destruct (mkref E c (unwrap c) var) as [r|] eqn:Hmk; [|discriminate].
